@@ -49,7 +49,10 @@ def sha(path):
 def annotation(seed, fmt, prefix=""):
     rng = random.Random(seed)
     genes = G.models(rng, prefix=prefix)
-    return G.gff3(genes, rng) if fmt == "gff3" else G.gtf(genes, rng)
+    if fmt == "gff3":
+        # a third of the GFF3 models use ids shaped like gffutils' own generated ones and a fourth tier of features
+        return G.gff3(genes, rng, shaped_ids=seed % 3 == 0, parts=seed % 3 != 1)
+    return G.gtf(genes, rng)
 
 
 def execute(ctx, case):
@@ -71,6 +74,13 @@ def pair(ctx, case):
     dbfn, solo = ctx.tmp(".db"), ctx.tmp(".solo.db")
     try:
         gffutils.create_db(old_text, dbfn, from_string=True).conn.close()
+        if case.get("old_without_stats"):
+            # a database as older gffutils versions wrote it (no ANALYZE statistics); FeatureDB still opens those
+            c0 = sqltrace.ORIG_CONNECT(dbfn)
+            c0.execute("DROP TABLE IF EXISTS sqlite_stat1")
+            c0.commit()
+            c0.close()
+            ctx.mon("old databases without ANALYZE statistics")
         before, h0 = dbdump.dump(dbfn), sha(dbfn)
         # without force: must raise, content untouched
         raised = None
@@ -155,7 +165,7 @@ def one_call(db, name, rng, ids, feats):
                                              reverse=rng.random() < 0.5))
     if name in ("children", "parents"):
         f = rng.choice([fid, db[fid]])
-        return drain_gen(getattr(db, name)(f, level=rng.choice([None, 1, 2]), featuretype=rng.choice(types),
+        return drain_gen(getattr(db, name)(f, level=rng.choice([None, 1, 2, 3, 4]), featuretype=rng.choice(types),
                                            order_by=rng.choice(order), reverse=rng.random() < 0.5, limit=limit,
                                            completely_within=rng.random() < 0.5))
     if name == "region":
@@ -261,7 +271,8 @@ def run(ctx):
     for _ in range(ctx.budget(300, 8000)):
         case = {"kind": "pair", "old_seed": rng.randrange(10 ** 6), "new_seed": rng.randrange(10 ** 6),
                 "old_fmt": rng.choice(["gff3", "gtf"]), "new_fmt": rng.choice(["gff3", "gtf"]),
-                "disjoint": rng.random() < 0.5, "force": rng.random() < 0.7, "force_kw": rng.choice(["absent", "False"])}
+                "disjoint": rng.random() < 0.5, "force": rng.random() < 0.7, "force_kw": rng.choice(["absent", "False"]),
+                "old_without_stats": rng.random() < 0.3}
         execute(ctx, case)
         ctx.case(("pair", case), case["disjoint"], sample=case, cls="pair force=%s" % case["force"])
     for _ in range(ctx.budget(480, 16000)):
